@@ -497,4 +497,424 @@ pub proof fn lemma_hcat_cols(a: MatR, b: MatR)
   assert forall |j: int| a.c <= j < a.c + b.c implies #[trigger] h.e[j] == b.e[j - a.c] by { assert(h.e[j] =~= b.e[j - a.c]); }
 }
 
+// =====================================================================================================
+// Theorems (DESIGN.md section 3). Everything below is proved from the definitions; `la` has no axioms.
+
+pub proof fn lemma_shapes(a: MatR, b: MatR)
+  ensures mmul(a,b).wf(), mmul(a,b).r == a.r, mmul(a,b).c == b.c,
+          msub(a,b).wf(), msub(a,b).r == a.r, msub(a,b).c == a.c,
+          madd(a,b).wf(), madd(a,b).r == a.r, madd(a,b).c == a.c,
+          mtr(a).wf(), mtr(a).r == a.c, mtr(a).c == a.r,
+{}
+
+// ---- columns
+pub proof fn lemma_col_mmul(a: MatR, b: MatR, s: int)
+  requires a.wf(), b.wf(), a.c == b.r, 0 <= s < b.c
+  ensures col(mmul(a,b), s) == mmul(a, col(b,s))
+{
+  let l = col(mmul(a,b), s); let r = mmul(a, col(b,s));
+  assert forall |i:int,j:int| 0 <= i < l.r && 0 <= j < l.c implies #[trigger] l.get(i,j) == r.get(i,j) by {
+    let f = |k:int| a.get(i,k) * b.get(k,s);
+    let g = |k:int| a.get(i,k) * col(b,s).get(k,j);
+    assert forall |k:int| 0 <= k < a.c implies #[trigger] f(k) == g(k) by {}
+    sum_ext(a.c as int, f, g);
+  }
+  mat_ext(l, r);
+}
+pub proof fn lemma_col_msub(a: MatR, b: MatR, s: int)
+  requires a.wf(), b.wf(), a.r == b.r, a.c == b.c, 0 <= s < a.c
+  ensures col(msub(a,b), s) == msub(col(a,s), col(b,s))
+{
+  let l = col(msub(a,b), s); let r = msub(col(a,s), col(b,s));
+  assert forall |i:int,j:int| 0 <= i < l.r && 0 <= j < l.c implies #[trigger] l.get(i,j) == r.get(i,j) by {}
+  mat_ext(l, r);
+}
+pub proof fn lemma_col_zero(a: MatR, s: int)
+  requires a.wf(), 0 <= s < a.c, is_zero(a)
+  ensures is_zero(col(a,s))
+{
+  assert forall |i:int,j:int| 0 <= i < col(a,s).r && 0 <= j < col(a,s).c implies #[trigger] col(a,s).get(i,j) == 0real by {
+    assert(a.get(i,s) == 0real);
+  }
+}
+
+/// C01: normal equations for the whole right-hand-side matrix => every column is a least-squares minimiser
+pub proof fn T_ls_min(a: MatR, b: MatR, x: MatR, z: MatR, s: int)
+  requires a.wf(), b.wf(), x.wf(), z.wf(), b.r == a.r, x.r == a.c, x.c == b.c, z.r == a.c, z.c == 1, 0 <= s < b.c,
+           is_zero(mmul(mtr(a), msub(b, mmul(a, x)))),
+  ensures frob2(msub(col(b,s), mmul(a, col(x,s)))) <= frob2(msub(col(b,s), mmul(a, z)))
+{
+  lemma_shapes(a, x); lemma_shapes(b, mmul(a,x)); lemma_shapes(mtr(a), msub(b, mmul(a,x))); lemma_shapes(a, b);
+  let res = msub(b, mmul(a,x));
+  lemma_col_zero(mmul(mtr(a), res), s);
+  lemma_col_mmul(mtr(a), res, s);
+  lemma_col_msub(b, mmul(a,x), s);
+  lemma_col_mmul(a, x, s);
+  lemma_col_e0(b, s); lemma_col_e0(x, s);
+  ls_min_col(a, col(b,s), col(x,s), z);
+}
+
+// ---- truncation
+pub proof fn T_full_rank(a: MatR, u: MatR, s: Seq<real>, vt: MatR, eps: real)
+  requires svd_ok(a, u, s, vt), full_rank_at(s, eps)
+  ensures a_eps(u, s, vt, eps) == a
+{
+  assert(trunc(s, eps) =~= s);
+}
+
+/// C01: the literal nalgebra solve formula satisfies the normal equations of the eps-truncated matrix,
+/// hence minimises every column's residual norm against every competitor
+pub proof fn T_solve_minimises(a: MatR, u: MatR, s: Seq<real>, vt: MatR, b: MatR, eps: real, z: MatR, sidx: int)
+  requires svd_ok(a, u, s, vt), b.wf(), b.r == a.r, eps >= 0real, z.wf(), z.r == a.c, z.c == 1, 0 <= sidx < b.c,
+  ensures ({
+    let x = solve_spec(u, s, vt, b, eps);
+    let ae = a_eps(u, s, vt, eps);
+    &&& is_zero(mmul(mtr(ae), msub(b, mmul(ae, x))))
+    &&& frob2(msub(col(b,sidx), mmul(ae, col(x,sidx)))) <= frob2(msub(col(b,sidx), mmul(ae, z)))
+    &&& full_rank_at(s, eps) ==> ae == a
+  })
+{
+  let x = solve_spec(u, s, vt, b, eps);
+  let ae = a_eps(u, s, vt, eps);
+  ls_normal(u, s, vt, b, eps);
+  lemma_shapes(u, diagm(trunc(s,eps))); lemma_shapes(mmul(u, diagm(trunc(s,eps))), vt);
+  lemma_shapes(mtr(u), b); lemma_shapes(diagm(pinv_diag(s,eps)), mmul(mtr(u), b)); lemma_shapes(mtr(vt), mmul(diagm(pinv_diag(s,eps)), mmul(mtr(u), b)));
+  lemma_shapes(vt, vt);
+  T_ls_min(ae, b, x, z, sidx);
+  if full_rank_at(s, eps) { T_full_rank(a, u, s, vt, eps); }
+}
+
+// ---- more ring laws
+pub proof fn mmul_ident_r(a: MatR) requires a.wf() ensures mmul(a, ident(a.c)) == a
+{
+  let l = mmul(a, ident(a.c));
+  assert forall |i:int,j:int| 0 <= i < l.r && 0 <= j < l.c implies #[trigger] l.get(i,j) == a.get(i,j) by {
+    let f = |k:int| a.get(i,k) * ident(a.c).get(k,j);
+    assert forall |k:int| 0 <= k < a.c && k != j implies #[trigger] f(k) == 0real by {
+      assert(a.get(i,k) * 0real == 0real) by(nonlinear_arith);
+    }
+    sum_single(a.c as int, f, j);
+    assert(a.get(i,j) * 1real == a.get(i,j)) by(nonlinear_arith);
+  }
+  mat_ext(l, a);
+}
+pub proof fn mmul_msub_l(a: MatR, b: MatR, c: MatR)
+  requires a.wf(), b.wf(), c.wf(), a.r == b.r, a.c == b.c, a.c == c.r
+  ensures mmul(msub(a,b), c) == msub(mmul(a,c), mmul(b,c))
+{
+  let l = mmul(msub(a,b), c); let r = msub(mmul(a,c), mmul(b,c));
+  assert forall |i:int,j:int| 0 <= i < l.r && 0 <= j < l.c implies #[trigger] l.get(i,j) == r.get(i,j) by {
+    let fa = |k:int| a.get(i,k) * c.get(k,j);
+    let fb = |k:int| b.get(i,k) * c.get(k,j);
+    let fd = |k:int| msub(a,b).get(i,k) * c.get(k,j);
+    let fab = |k:int| fa(k) - fb(k);
+    sum_sub(a.c as int, fa, fb);
+    assert forall |k:int| 0 <= k < a.c implies #[trigger] fd(k) == fab(k) by {
+      assert((a.get(i,k) - b.get(i,k)) * c.get(k,j) == a.get(i,k) * c.get(k,j) - b.get(i,k) * c.get(k,j)) by(nonlinear_arith);
+    }
+    sum_ext(a.c as int, fd, fab);
+  }
+  mat_ext(l, r);
+}
+pub proof fn mmul_madd_r(a: MatR, b: MatR, c: MatR)
+  requires a.wf(), b.wf(), c.wf(), a.c == b.r, b.r == c.r, b.c == c.c
+  ensures mmul(a, madd(b,c)) == madd(mmul(a,b), mmul(a,c))
+{
+  let l = mmul(a, madd(b,c)); let r = madd(mmul(a,b), mmul(a,c));
+  assert forall |i:int,j:int| 0 <= i < l.r && 0 <= j < l.c implies #[trigger] l.get(i,j) == r.get(i,j) by {
+    let fb = |k:int| a.get(i,k) * b.get(k,j);
+    let fc = |k:int| a.get(i,k) * c.get(k,j);
+    let fd = |k:int| a.get(i,k) * madd(b,c).get(k,j);
+    let fbc = |k:int| fb(k) + fc(k);
+    sum_add(a.c as int, fb, fc);
+    assert forall |k:int| 0 <= k < a.c implies #[trigger] fd(k) == fbc(k) by {
+      assert(a.get(i,k) * (b.get(k,j) + c.get(k,j)) == a.get(i,k) * b.get(k,j) + a.get(i,k) * c.get(k,j)) by(nonlinear_arith);
+    }
+    sum_ext(a.c as int, fd, fbc);
+  }
+  mat_ext(l, r);
+}
+pub proof fn mmul_scale_r(a: MatR, b: MatR, t: real)
+  requires a.wf(), b.wf(), a.c == b.r
+  ensures mmul(a, scale(b,t)) == scale(mmul(a,b), t)
+{
+  let l = mmul(a, scale(b,t)); let r = scale(mmul(a,b), t);
+  assert forall |i:int,j:int| 0 <= i < l.r && 0 <= j < l.c implies #[trigger] l.get(i,j) == r.get(i,j) by {
+    let f = |k:int| a.get(i,k) * b.get(k,j);
+    let fd = |k:int| a.get(i,k) * scale(b,t).get(k,j);
+    let ft = |k:int| t * f(k);
+    sum_scale(a.c as int, f, t);
+    assert forall |k:int| 0 <= k < a.c implies #[trigger] fd(k) == ft(k) by {
+      assert(a.get(i,k) * (t * b.get(k,j)) == t * (a.get(i,k) * b.get(k,j))) by(nonlinear_arith);
+    }
+    sum_ext(a.c as int, fd, ft);
+  }
+  mat_ext(l, r);
+}
+pub proof fn mtr_msub(a: MatR, b: MatR)
+  requires a.wf(), b.wf(), a.r == b.r, a.c == b.c
+  ensures mtr(msub(a,b)) == msub(mtr(a), mtr(b))
+{
+  let l = mtr(msub(a,b)); let r = msub(mtr(a), mtr(b));
+  assert forall |i:int,j:int| 0 <= i < l.r && 0 <= j < l.c implies #[trigger] l.get(i,j) == r.get(i,j) by {}
+  mat_ext(l, r);
+}
+pub proof fn msub_self(a: MatR) requires a.wf() ensures is_zero(msub(a,a)), msub(a,a) == zeros(a.r, a.c)
+{
+  mat_ext(msub(a,a), zeros(a.r, a.c));
+}
+pub proof fn mmul_zero_r(a: MatR, r: nat, c: nat) requires a.wf(), a.c == r ensures mmul(a, zeros(r,c)) == zeros(a.r, c)
+{
+  let l = mmul(a, zeros(r,c));
+  assert forall |i:int,j:int| 0 <= i < l.r && 0 <= j < l.c implies #[trigger] l.get(i,j) == 0real by {
+    let f = |k:int| a.get(i,k) * zeros(r,c).get(k,j);
+    assert forall |k:int| 0 <= k < a.c implies #[trigger] f(k) == 0real by { assert(a.get(i,k) * 0real == 0real) by(nonlinear_arith); }
+    sum_all_zero(a.c as int, f);
+  }
+  mat_ext(l, zeros(a.r, c));
+}
+
+/// C01: "the coefficients depend linearly on the observations"
+pub proof fn T_linear(u: MatR, s: Seq<real>, vt: MatR, b1: MatR, b2: MatR, t: real, eps: real)
+  requires u.wf(), vt.wf(), b1.wf(), b2.wf(), b1.r == u.r, b2.r == u.r, b1.c == b2.c, s.len() == u.c, vt.r == u.c,
+  ensures solve_spec(u, s, vt, madd(b1, scale(b2, t)), eps)
+       == madd(solve_spec(u, s, vt, b1, eps), scale(solve_spec(u, s, vt, b2, eps), t)),
+{
+  let ut = mtr(u); let v = mtr(vt); let sp = diagm(pinv_diag(s, eps));
+  lemma_shapes(b2, b2); lemma_shapes(ut, b1); lemma_shapes(ut, b2);
+  let sb2 = scale(b2, t);
+  // u^T (b1 + t b2) = u^T b1 + t u^T b2
+  mmul_madd_r(ut, b1, sb2);
+  mmul_scale_r(ut, b2, t);
+  let w1 = mmul(ut, b1); let w2 = mmul(ut, b2);
+  lemma_shapes(sp, w1); lemma_shapes(sp, w2);
+  mmul_madd_r(sp, w1, scale(w2, t));
+  mmul_scale_r(sp, w2, t);
+  let y1 = mmul(sp, w1); let y2 = mmul(sp, w2);
+  lemma_shapes(v, y1); lemma_shapes(v, y2);
+  mmul_madd_r(v, y1, scale(y2, t));
+  mmul_scale_r(v, y2, t);
+}
+
+/// C07: column s of the solution for B is the solution for column s of B
+pub proof fn T_col_solve(u: MatR, s: Seq<real>, vt: MatR, b: MatR, eps: real, sidx: int)
+  requires u.wf(), vt.wf(), b.wf(), b.r == u.r, s.len() == u.c, vt.r == u.c, 0 <= sidx < b.c,
+  ensures col(solve_spec(u, s, vt, b, eps), sidx) == solve_spec(u, s, vt, col(b, sidx), eps),
+{
+  let ut = mtr(u); let v = mtr(vt); let sp = diagm(pinv_diag(s, eps));
+  lemma_shapes(ut, b); lemma_shapes(sp, mmul(ut, b)); lemma_shapes(v, mmul(sp, mmul(ut, b)));
+  lemma_col_mmul(v, mmul(sp, mmul(ut, b)), sidx);
+  lemma_col_mmul(sp, mmul(ut, b), sidx);
+  lemma_col_mmul(ut, b, sidx);
+}
+
+// ---- weights (C06)
+pub proof fn T_w_shapes(w: WeightsR, a: MatR)
+  requires a.wf()
+  ensures wmul(w, a).wf(), wmul(w, a).r == a.r, wmul(w, a).c == a.c
+{}
+pub proof fn T_w_unit(a: MatR)
+  requires a.wf()
+  ensures wmul(WeightsR::Unit, a) == a,
+          wmul(WeightsR::Diag(Seq::new(a.r, |i:int| 1real)), a) == a,
+{
+  let o = wmul(WeightsR::Diag(Seq::new(a.r, |i:int| 1real)), a);
+  assert forall |i:int,j:int| 0 <= i < a.r && 0 <= j < a.c implies #[trigger] o.get(i,j) == a.get(i,j) by {
+    assert(1real * a.get(i,j) == a.get(i,j)) by(nonlinear_arith);
+  }
+  mat_ext(o, a);
+}
+pub proof fn T_w_mul(w: WeightsR, a: MatR, b: MatR)
+  requires a.wf(), b.wf(), a.c == b.r, w_ok(w, a.r)
+  ensures wmul(w, mmul(a,b)) == mmul(wmul(w,a), b)
+{
+  match w {
+    WeightsR::Unit => {}
+    WeightsR::Diag(d) => {
+      let l = wmul(w, mmul(a,b)); let r = mmul(wmul(w,a), b);
+      assert forall |i:int,j:int| 0 <= i < l.r && 0 <= j < l.c implies #[trigger] l.get(i,j) == r.get(i,j) by {
+        let f = |k:int| a.get(i,k) * b.get(k,j);
+        let g = |k:int| wmul(w,a).get(i,k) * b.get(k,j);
+        let h = |k:int| d[i] * f(k);
+        sum_scale(a.c as int, f, d[i]);
+        assert forall |k:int| 0 <= k < a.c implies #[trigger] g(k) == h(k) by {
+          assert((d[i] * a.get(i,k)) * b.get(k,j) == d[i] * (a.get(i,k) * b.get(k,j))) by(nonlinear_arith);
+        }
+        sum_ext(a.c as int, g, h);
+      }
+      mat_ext(l, r);
+    }
+  }
+}
+pub proof fn T_w_sub(w: WeightsR, a: MatR, b: MatR)
+  requires a.wf(), b.wf(), a.r == b.r, a.c == b.c, w_ok(w, a.r)
+  ensures wmul(w, msub(a,b)) == msub(wmul(w,a), wmul(w,b))
+{
+  match w {
+    WeightsR::Unit => {}
+    WeightsR::Diag(d) => {
+      let l = wmul(w, msub(a,b)); let r = msub(wmul(w,a), wmul(w,b));
+      assert forall |i:int,j:int| 0 <= i < l.r && 0 <= j < l.c implies #[trigger] l.get(i,j) == r.get(i,j) by {
+        assert(d[i] * (a.get(i,j) - b.get(i,j)) == d[i] * a.get(i,j) - d[i] * b.get(i,j)) by(nonlinear_arith);
+      }
+      mat_ext(l, r);
+    }
+  }
+}
+/// a zero weight removes the influence of that sample: rows with weight 0 may differ arbitrarily
+pub proof fn T_w_zero_row(d: Seq<real>, a: MatR, a2: MatR)
+  requires a.wf(), a2.wf(), a.r == a2.r, a.c == a2.c, d.len() == a.r,
+           forall |i:int,j:int| 0 <= i < a.r && 0 <= j < a.c && d[i] != 0real ==> #[trigger] a.get(i,j) == a2.get(i,j),
+  ensures wmul(WeightsR::Diag(d), a) == wmul(WeightsR::Diag(d), a2)
+{
+  let l = wmul(WeightsR::Diag(d), a); let r = wmul(WeightsR::Diag(d), a2);
+  assert forall |i:int,j:int| 0 <= i < l.r && 0 <= j < l.c implies #[trigger] l.get(i,j) == r.get(i,j) by {
+    if d[i] != 0real { assert(a.get(i,j) == a2.get(i,j)); }
+    else { assert(0real * a.get(i,j) == 0real * a2.get(i,j)) by(nonlinear_arith); }
+  }
+  mat_ext(l, r);
+}
+/// C02: W Y - (W Phi) C = W (Y - Phi C)
+pub proof fn T_weighted_residual(w: WeightsR, y: MatR, phi: MatR, c: MatR)
+  requires y.wf(), phi.wf(), c.wf(), phi.r == y.r, phi.c == c.r, c.c == y.c, w_ok(w, y.r)
+  ensures msub(wmul(w, y), mmul(wmul(w, phi), c)) == wmul(w, msub(y, mmul(phi, c)))
+{
+  lemma_shapes(phi, c);
+  T_w_mul(w, phi, c);
+  T_w_sub(w, y, mmul(phi, c));
+}
+
+// ---- column stacking (C02, C03, C07): block s of vec(A) is column s of A
+pub proof fn T_vec_block(a: MatR, s: int, i: int)
+  requires a.wf(), 0 <= s < a.c, 0 <= i < a.r
+  ensures vecm(a).get(s * (a.r as int) + i, 0) == a.get(i, s),
+          0 <= s * (a.r as int) + i < a.r * a.c,
+{
+  let r = a.r as int; let t = s * r + i;
+  assert(0 <= t < a.r * a.c) by(nonlinear_arith) requires 0 <= s < a.c, 0 <= i < r, r == a.r, t == s * r + i;
+  vstd::arithmetic::div_mod::lemma_fundamental_div_mod_converse(t, r, s, i);
+}
+
+// ---- projector / Kaufman column (C03)
+/// U^T U = I is all that is needed: every Jacobian column U(U^T X) - X equals (P - I) X with P = U U^T, P is symmetric and
+/// idempotent, P A = A, and A^T ((P - I) X) = 0 (orthogonal to the range of A) -- for any rank.
+pub proof fn T_proj(a: MatR, u: MatR, s: Seq<real>, vt: MatR, x: MatR)
+  requires svd_ok(a, u, s, vt), x.wf(), x.r == a.r,
+  ensures ({
+    let p = mmul(u, mtr(u));
+    &&& symmetric(p)
+    &&& mmul(p, p) == p
+    &&& mmul(p, a) == a
+    &&& kaufman_col(u, x) == msub(mmul(p, x), x)
+    &&& is_zero(mmul(mtr(a), kaufman_col(u, x)))
+  })
+{
+  let k = min_nat(a.r, a.c);
+  let ut = mtr(u); let p = mmul(u, ut); let sd = diagm(s);
+  lemma_shapes(u, ut); lemma_shapes(ut, x); lemma_shapes(u, sd); lemma_shapes(mmul(u, sd), vt); lemma_shapes(ut, u);
+  // symmetric: (U U^T)^T = U^T^T U^T = U U^T
+  mtr_mmul(u, ut); mtr_mtr(u);
+  assert(mtr(p) == p);
+  // idempotent: (U U^T)(U U^T) = U ((U^T U) U^T) = U U^T
+  mmul_assoc(u, ut, p);             // (u ut) p == u (ut p)
+  mmul_assoc(ut, u, ut);            // (ut u) ut == ut (u ut)
+  mmul_ident_l(ut);
+  assert(mmul(ut, p) == ut);
+  assert(mmul(p, p) == p);
+  // P A = U U^T (U S Vt) = U S Vt
+  let us = mmul(u, sd);
+  mmul_assoc(u, ut, a);             // (u ut) a == u (ut a)
+  mmul_assoc(ut, us, vt);           // (ut us) vt == ut (us vt)
+  mmul_assoc(ut, u, sd);            // (ut u) sd == ut (u sd)
+  mmul_ident_l(sd);
+  assert(mmul(ut, us) == sd);
+  assert(mmul(ut, a) == mmul(sd, vt));
+  mmul_assoc(u, sd, vt);            // (u sd) vt == u (sd vt)
+  assert(mmul(p, a) == a);
+  // kaufman_col: U (U^T X) = (U U^T) X
+  mmul_assoc(u, ut, x);
+  assert(kaufman_col(u, x) == msub(mmul(p, x), x));
+  // A^T (P X - X) = A^T P X - A^T X, and A^T P = (P A)^T = A^T
+  let at = mtr(a);
+  lemma_shapes(p, x); lemma_shapes(at, p);
+  mmul_msub_r(at, mmul(p, x), x);
+  mmul_assoc(at, p, x);             // (at p) x == at (p x)
+  mtr_mmul(p, a);                   // (p a)^T == a^T p^T
+  assert(mmul(at, p) == at);
+  lemma_shapes(at, x);
+  msub_self(mmul(at, x));
+}
+/// with full column rank (all singular values > 0, N >= M) P is exactly A times the pseudo-inverse: range(P) = range(A)
+pub proof fn T_proj_range(a: MatR, u: MatR, s: Seq<real>, vt: MatR)
+  requires svd_ok(a, u, s, vt), full_rank_at(s, 0real), a.r >= a.c,
+  ensures mmul(u, mtr(u)) == mmul(a, mmul(mtr(vt), mmul(diagm(pinv_diag(s, 0real)), mtr(u))))
+{
+  let ut = mtr(u); let v = mtr(vt); let sd = diagm(s); let sp = diagm(pinv_diag(s, 0real));
+  let k = min_nat(a.r, a.c);
+  lemma_shapes(u, sd); lemma_shapes(sp, ut); lemma_shapes(v, mmul(sp, ut)); lemma_shapes(mmul(u, sd), vt); lemma_shapes(vt, v);
+  let us = mmul(u, sd);
+  let g = mmul(v, mmul(sp, ut));
+  // (us vt) (v (sp ut)) = us ((vt v) (sp ut)) = us (sp ut)
+  mmul_assoc(us, vt, g);
+  mmul_assoc(vt, v, mmul(sp, ut));
+  mmul_ident_l(mmul(sp, ut));
+  assert(mmul(vt, g) == mmul(sp, ut));
+  // (u sd)(sp ut) = u (sd (sp ut)) = u ((sd sp) ut) = u ut
+  mmul_assoc(u, sd, mmul(sp, ut));
+  mmul_assoc(sd, sp, ut);
+  diagm_mul(s, pinv_diag(s, 0real));
+  assert forall |i:int| 0 <= i < s.len() implies #[trigger] smul(s, pinv_diag(s, 0real))[i] == 1real by {
+    assert(s[i] > 0real);
+    assert(s[i] * (1real / s[i]) == 1real) by(nonlinear_arith) requires s[i] > 0real;
+  }
+  assert(diagm(smul(s, pinv_diag(s, 0real))) == ident(s.len())) by {
+    mat_ext(diagm(smul(s, pinv_diag(s, 0real))), ident(s.len()));
+  }
+  mmul_ident_l(ut);
+}
+
+// ---- covariance (C13)
+pub open spec fn unit_vec(n: nat, i0: int) -> MatR { mat_new(n, 1, |i:int,j:int| if i == i0 { 1real } else { 0real }) }
+pub proof fn lemma_frob2_nonneg(a: MatR) ensures frob2(a) >= 0real
+{
+  let outer = |j:int| sum(a.r as int, |i:int| a.get(i,j)*a.get(i,j));
+  assert forall |j:int| 0 <= j < a.c implies #[trigger] outer(j) >= 0real by {
+    let inner = |i:int| a.get(i,j)*a.get(i,j);
+    assert forall |i:int| 0 <= i < a.r implies #[trigger] inner(i) >= 0real by {
+      assert(a.get(i,j)*a.get(i,j) >= 0real) by(nonlinear_arith);
+    }
+    sum_nonneg(a.r as int, inner);
+  }
+  sum_nonneg(a.c as int, outer);
+}
+/// the inverse of H^T H is symmetric, so cov = t * inv is symmetric
+pub proof fn T_cov_symmetric(h: MatR, inv: MatR, t: real)
+  requires h.wf(), inv.wf(), inv.r == h.c, inv.c == h.c,
+           mmul(mmul(mtr(h), h), inv) == ident(h.c), mmul(inv, mmul(mtr(h), h)) == ident(h.c),
+  ensures symmetric(inv), symmetric(scale(inv, t)), symmetric(scale(scale(inv, t), t)),
+{
+  let m = mmul(mtr(h), h); let it = mtr(inv);
+  lemma_shapes(mtr(h), h); lemma_shapes(m, inv);
+  // m symmetric
+  mtr_mmul(mtr(h), h); mtr_mtr(h);
+  assert(mtr(m) == m);
+  // it m = (m inv)^T = I
+  mtr_mmul(m, inv);
+  assert(mtr(ident(h.c)) == ident(h.c)) by { mat_ext(mtr(ident(h.c)), ident(h.c)); }
+  assert(mmul(it, m) == ident(h.c));
+  // it = it (m inv) = (it m) inv = inv
+  mmul_assoc(it, m, inv);
+  mmul_ident_r(it);
+  mmul_ident_l(inv);
+  assert(it == inv);
+  assert(mtr(scale(inv, t)) == scale(inv, t)) by { mat_ext(mtr(scale(inv, t)), scale(inv, t)); }
+  let c2 = scale(scale(inv, t), t);
+  assert(mtr(c2) == c2) by {
+    assert forall |i:int,j:int| 0 <= i < c2.r && 0 <= j < c2.c implies #[trigger] mtr(c2).get(i,j) == c2.get(i,j) by {
+      assert(inv.get(j,i) == mtr(inv).get(i,j));
+    }
+    mat_ext(mtr(c2), c2);
+  }
+}
+
 } // verus!
